@@ -110,11 +110,13 @@ CLAIMED = {
          "every evaluation order; last contributing block wins; after an attribute rewrite followed by reset_item the cache is coherent with the new "
          "attributes (clear_node reaches children and else-chains; a block is cached only after its parent, an invariant every evaluation keeps); "
          "tied by differential correspondence on random trees x operation sequences (rewrites + "
-         "reset_item, full resets, partially valid attributes) and judged against a reference of the language",
+         "reset_item, full resets, partially valid attributes) and judged against a reference of the language; and at system level: generated "
+         "lighttpd.conf texts (nesting, else-chains, all operators) on the real server, where the real parser builds the tree and three response "
+         "headers show which block won for each of three directives, with mod_extforward forcing reset_item on every request (props/condsys.py)",
     note="the reset theorem assumes children/prev/next links that agree with the parent links (wf2), a property of the parser's trees that is exercised "
-         "through the correspondence only; regexes restricted to anchored literals (PCRE2 in the harness); per-module patch loops and "
+         "through the system correspondence only; regexes restricted to anchored literals (PCRE2 in the harness); per-module patch loops and "
          "h2_init_stream inheritance not modelled; trusted: Coq kernel, extraction, harness glue, python reference",
-    technique="Coq proof over executable model + differential correspondence (extracted OCaml vs C harness) + language reference monitor",
+    technique="Coq proof over executable model + differential correspondence (extracted OCaml vs C harness, and vs the running server on generated configurations) + language reference monitor",
     design="5/C14"),
  "C03": dict(
     text="Coq theorems over an executable model of the access pipeline (canonical path from C02's parse_target, mod_extforward X-Forwarded-For walk, "
